@@ -682,6 +682,22 @@ def _sleep(d):
         th.block(w)
 
 
+def exact_sleep(d):
+    """Harness-side wait of exactly d (no wake-up lateness, and it does not consume a value of the generated eps list): used for
+    the modelled duration of a driver write, which is a parameter of the scenario, not a timed wait of the stack."""
+    sim = cur()
+    th = sim.current
+    if d <= 0:
+        return
+    w = sim.now + d
+    while w - sim.now < d:
+        w = math.nextafter(w, math.inf)
+    if th is None:
+        sim.run_until(w)
+    else:
+        th.block(w)
+
+
 def _current_thread():
     sim = cur()
     return sim.current or _MAIN
